@@ -13,6 +13,21 @@ fn mark(what: &str) {
     let _ = std::fs::metadata(format!("/kv-marker/{}", what));
 }
 
+/// Runs `f`; if it has not returned after five seconds the process exits with status 3 (the tracer reports the
+/// operation of the last marker as one that does not complete).
+fn watchdog<R>(f: impl FnOnce() -> R) -> R {
+    // the wait is a futex wait with a timeout: not one of the traced calls, so it does not show up as a sleep of the operation
+    let (tx, rx) = std::sync::mpsc::channel::<()>();
+    std::thread::spawn(move || {
+        if let Err(std::sync::mpsc::RecvTimeoutError::Timeout) = rx.recv_timeout(std::time::Duration::from_secs(5)) {
+            std::process::exit(3);
+        }
+    });
+    let r = f();
+    let _ = tx.send(());
+    r
+}
+
 fn fill(dir: &Path, n: usize) {
     std::fs::create_dir_all(dir).unwrap();
     for i in 0..n {
@@ -59,6 +74,13 @@ pub fn run(args: &[String]) {
         assert!(c.touch("a").unwrap());
         mark("plain:touch-miss");
         assert!(!c.touch("nope").unwrap());
+        // a writer whose own source file is gone (e.g. removed as a stale temporary file by a peer's maintenance while the
+        // writer was stalled) must get an error after a constant number of calls, whatever the peers do afterwards
+        let gone = tmp.join("gone-source");
+        mark("plain:set-missing-source");
+        watchdog(|| assert!(c.set("m", &gone).is_err()));
+        mark("plain:put-missing-source");
+        watchdog(|| assert!(c.put("m", &gone).is_err()));
         mark("plain:end");
     }
     // ---- sharded -----------------------------------------------------------------------------------------
